@@ -58,6 +58,8 @@ impl Args {
 }
 
 pub struct Report {
+    /// replay of recorded inputs (fuzz.rs): the file the current case was read from, added to every violation record
+    pub input_file: Option<String>,
     out: File,
     pub evaluations: u64,
     distinct: HashSet<u64>,
@@ -73,6 +75,7 @@ impl Report {
     pub fn new(args: &Args) -> Report {
         let out = File::create(&args.out).expect("cannot create report file");
         Report {
+            input_file: None,
             out,
             evaluations: 0,
             distinct: HashSet::new(),
@@ -86,6 +89,10 @@ impl Report {
     }
     pub fn no_journal(&mut self) {
         self.journal = false;
+    }
+    /// returns the previous setting
+    pub fn set_journal(&mut self, on: bool) -> bool {
+        std::mem::replace(&mut self.journal, on)
     }
     fn line(&mut self, v: Value) {
         let mut s = serde_json::to_string(&v).unwrap();
@@ -143,8 +150,11 @@ impl Report {
     }
     /// an observation that contradicts the property. `sig` is the attribution signature
     /// (defect model that explains it, or `unexplained:<class>`), `what` a one-line description.
-    pub fn violation(&mut self, sig: &str, what: &str, case: Value) {
+    pub fn violation(&mut self, sig: &str, what: &str, mut case: Value) {
         self.violations += 1;
+        if let (Some(f), Some(o)) = (&self.input_file, case.as_object_mut()) {
+            o.insert("input_file".into(), json!(f));
+        }
         let n = self.viol_per_sig.entry(sig.to_string()).or_insert(0);
         *n += 1;
         if *n <= 3 {
